@@ -107,3 +107,527 @@ Proof.
   destruct (SPAN_CAP <=? _); [exact I|].
   apply IH. pose proof (pop_clear term E0). lia.
 Qed.
+
+(* ================= 2. the pointer-walking loops over the flattened postings ================= *)
+Section Loops.
+Variable posns : list N.
+Let P := mem_of_list posns.
+Let n := N.of_nat (length posns).
+Let g (i : N) : N := nth (N.to_nat i) posns 0.
+
+Lemma rdP i : i < n -> rd 0 P i = Done (g i).
+Proof. intro H. unfold P. rewrite rd_mem_of_list. apply lrd_ok. exact H. Qed.
+
+(* ---- step 1a: skip_earlier ---- *)
+Lemma skip_earlier_done : forall fuel i hi dk, hi <= n -> (N.to_nat (hi - i)%N < fuel)%nat ->
+  is_done (skip_earlier P fuel i hi dk).
+Proof.
+  induction fuel as [|f IH]; intros i hi dk Hhi Hf; [lia|]. cbn [skip_earlier].
+  destruct (i <? hi) eqn:E; [|exact I]. apply N.ltb_lt in E.
+  rewrite rdP by lia. cbn [bind]. destruct (dkey (g i) <? dk); [|exact I].
+  apply IH; [exact Hhi|lia].
+Qed.
+
+(* a cursor that already sits on the document is not moved *)
+Lemma skip_earlier_stay f i hi : i < hi -> hi <= n -> skip_earlier P (S f) i hi (dkey (g i)) = Done i.
+Proof.
+  intros Hi Hhi. cbn [skip_earlier]. rewrite ltb_true by exact Hi. rewrite rdP by lia. cbn [bind].
+  rewrite N.ltb_irrefl. reflexivity.
+Qed.
+
+(* ---- step 1b: give_up and words_loop ---- *)
+Lemma give_up_done : forall fuel i hi lk ck, hi <= n -> (N.to_nat (hi - i)%N < fuel)%nat ->
+  is_done (give_up P fuel i hi lk ck).
+Proof.
+  induction fuel as [|f IH]; intros i hi lk ck Hhi Hf; [lia|]. cbn [give_up].
+  destruct (i <? hi) eqn:E; [|exact I]. apply N.ltb_lt in E.
+  rewrite rdP by lia. cbn [bind]. destruct (negb (dkey (g i) =? lk)); [exact I|].
+  apply IH; [exact Hhi|lia].
+Qed.
+
+Lemma words_loop_done : forall fuel hi tord nt maxw st, hi <= n -> (N.to_nat (hi - ts_idx st)%N < fuel)%nat ->
+  is_done (words_loop P fuel hi tord nt maxw st).
+Proof.
+  induction fuel as [|f IH]; intros hi tord nt maxw st Hhi Hf; [lia|]. cbn [words_loop].
+  destruct (ts_idx st <? hi) eqn:E; [|exact I]. apply N.ltb_lt in E.
+  rewrite rdP by lia. cbn [bind].
+  apply is_done_bind.
+  { apply bits_loop_done. pose proof (payload_popcount (g (ts_idx st))). change (N.of_nat 70) with 70. lia. }
+  intros [spans1 full1] _. cbv beta iota.
+  apply is_done_bind.
+  { destruct (ts_idx st + 1 <? hi) eqn:E1; [|exact I]. apply N.ltb_lt in E1. rewrite rdP by lia. exact I. }
+  intros ck _.
+  apply is_done_bind.
+  { destruct (SPAN_CAP <=? N.of_nat (length spans1)); [|exact I].
+    destruct (SPAN_CAP <=? N.of_nat (length (compact spans1 maxw))); [|exact I].
+    apply is_done_bind; [|intros; exact I]. apply give_up_done; [exact Hhi|lia]. }
+  intros [[spans2 idx2] ck2] Hcg. cbv beta iota.
+  assert (Hidx : ts_idx st + 1 <= idx2).
+  { destruct (SPAN_CAP <=? N.of_nat (length spans1)).
+    - destruct (SPAN_CAP <=? N.of_nat (length (compact spans1 maxw))).
+      + apply bind_inv in Hcg as (gu & Hg & Hcg). apply give_up_ge in Hg.
+        inversion Hcg; subst. destruct (fst gu); lia.
+      + inversion Hcg; subst. lia.
+    - inversion Hcg; subst. lia. }
+  destruct (negb (ck2 =? ts_curr_key st)); [exact I|].
+  apply IH; [exact Hhi|]. cbn [ts_idx]. lia.
+Qed.
+
+(* words_loop consumes at least the word it starts on *)
+Lemma words_loop_gt : forall fuel hi tord nt maxw st st', ts_idx st < hi ->
+  words_loop P fuel hi tord nt maxw st = Done st' -> ts_idx st < ts_idx st'.
+Proof.
+  intros [|f] hi tord nt maxw st st' Hlt H; cbn [words_loop] in H; [discriminate|].
+  rewrite ltb_true in H by exact Hlt.
+  apply bind_inv in H as (w & _ & H). apply bind_inv in H as ([spans1 full1] & _ & H).
+  apply bind_inv in H as (ck & _ & H). apply bind_inv in H as ([[spans2 idx2] ck2] & Hcg & H).
+  assert (Hidx : ts_idx st + 1 <= idx2).
+  { destruct (SPAN_CAP <=? N.of_nat (length spans1)).
+    - destruct (SPAN_CAP <=? N.of_nat (length (compact spans1 maxw))).
+      + apply bind_inv in Hcg as (gu & Hg & Hcg). apply give_up_ge in Hg.
+        inversion Hcg; subst. destruct (fst gu); lia.
+      + inversion Hcg; subst. lia.
+    - inversion Hcg; subst. lia. }
+  destruct (negb (ck2 =? ts_curr_key st)).
+  - inversion H; subst. cbn [ts_idx]. lia.
+  - apply words_loop_ge in H. cbn [ts_idx] in H. lia.
+Qed.
+
+(* ---- step 2: terms_loop ---- *)
+Lemma terms_loop_done : forall lens idxs tord nt maxw dk spans full lk sums ap,
+  Forall (fun hi => hi <= n) lens ->
+  is_done (terms_loop P lens tord idxs nt maxw dk spans full lk sums ap).
+Proof.
+  induction lens as [|hi lrest IH]; intros idxs tord nt maxw dk spans full lk sums ap Hl.
+  - destruct idxs; exact I.
+  - destruct idxs as [|i0 irest]; [exact I|]. inversion Hl as [|? ? Hhi Hl']; subst. cbn [terms_loop].
+    apply is_done_bind; [apply skip_earlier_done; [exact Hhi|lia]|]. intros i _.
+    apply is_done_bind.
+    { destruct (hi <=? i) eqn:E; [exact I|]. apply N.leb_gt in E. rewrite rdP by lia. cbn [bind].
+      destruct (negb (dkey (g i) =? dk)); [exact I|].
+      apply is_done_bind; [|intros; exact I]. apply words_loop_done; [exact Hhi|cbn [ts_idx]; lia]. }
+    intros [stt present] _. cbv beta iota.
+    apply is_done_bind; [apply IH; exact Hl'|].
+    intros [[[[[idxs1 sp1] f1] lk1] sums1] ap1] _. exact I.
+Qed.
+
+(* the first term is at doc_key by construction, so its cursor strictly advances *)
+Lemma terms_loop_progress i0 irest hi lrest tord nt maxw spans full lk sums ap idxs' sp' f' lk' sums' ap' :
+  i0 < hi -> hi <= n ->
+  terms_loop P (hi :: lrest) tord (i0 :: irest) nt maxw (dkey (g i0)) spans full lk sums ap
+    = Done (idxs', sp', f', lk', sums', ap') ->
+  exists i0' rest', idxs' = i0' :: rest' /\ i0 < i0'.
+Proof.
+  intros Hi Hhi H. cbn [terms_loop] in H.
+  rewrite skip_earlier_stay in H by assumption. cbn [bind] in H.
+  rewrite (proj2 (N.leb_gt hi i0) Hi) in H. rewrite rdP in H by lia. cbn [bind] in H.
+  rewrite N.eqb_refl in H. cbn [negb] in H.
+  apply bind_inv in H as ([stt present] & Hst & H).
+  apply bind_inv in Hst as (s & Hs & Hst). inversion Hst; subst stt present.
+  apply words_loop_gt in Hs; [|cbn [ts_idx]; exact Hi]. cbn [ts_idx] in Hs.
+  apply bind_inv in H as ([[[[[idxs1 sp1] f1] lk1] sums1] ap1] & _ & H).
+  inversion H; subst. exists (ts_idx s), idxs1. split; [reflexivity|exact Hs].
+Qed.
+
+(* ---- step 3: docs_loop, including its fuel ---- *)
+Lemma docs_loop_done nt maxw : forall fuel (his idxs : list N) acc,
+  Forall (fun hi => hi <= n) his -> length idxs = length his ->
+  (N.to_nat (hd 0 his - hd 0 idxs)%N < fuel)%nat ->
+  is_done (docs_loop P fuel his (hd 0 his) idxs nt maxw acc).
+Proof.
+  induction fuel as [|f IH]; intros his idxs acc Hl Hlen Hf; [lia|]. cbn [docs_loop].
+  destruct idxs as [|i0 irest]; [exact I|].
+  destruct his as [|hi0 lrest]; [discriminate Hlen|]. cbn [hd] in *.
+  destruct (i0 <? hi0) eqn:E; [|exact I]. apply N.ltb_lt in E.
+  pose proof (Forall_inv Hl) as Hhi. cbv beta in Hhi.
+  rewrite rdP by lia. cbn [bind].
+  apply is_done_bind; [apply terms_loop_done; exact Hl|].
+  intros [[[[[idxs1 spans1] full1] lk1] sums1] ap1] Hr. cbv beta iota.
+  pose proof Hr as Hr2. apply terms_loop_inv in Hr2 as [Hle _]; [|exact Hlen].
+  apply terms_loop_progress in Hr as (i0' & rest' & -> & Hgt); [|exact E|exact Hhi].
+  apply (IH (hi0 :: lrest)); [exact Hl| |cbn [hd]; lia].
+  rewrite <- Hlen. symmetry. eapply Forall2_len. exact Hle.
+Qed.
+End Loops.
+
+(* ================= 3. intersect_all: composing the kernel safety theorems ================= *)
+Notation len l := (N.of_nat (length l)).
+
+(* ---- the kernels' outputs are no longer than the buffers the wrappers allocate ---- *)
+Lemma wr_ok_inv buf cap i u : wr_ok buf cap i = Done u -> i < cap.
+Proof. unfold wr_ok. destruct (i <? cap) eqn:E; [intros _; apply N.ltb_lt; exact E|discriminate]. Qed.
+
+Lemma drop_loop_len L R mask cap : forall fuel i j last lo ro no out,
+  len lo = no -> len ro = no -> no <= cap ->
+  drop_loop L R mask cap fuel i j last lo ro no = Done out -> len (fst out) <= cap /\ len (snd out) <= cap.
+Proof.
+  induction fuel as [|f IH]; intros i j last lo ro no out H1 H2 H3 H; cbn [drop_loop] in H; [discriminate|].
+  destruct (andb _ _).
+  - apply bind_inv in H as (ig & _ & H). apply bind_inv in H as (jg & _ & H).
+    apply bind_inv in H as (x & _ & H). apply bind_inv in H as (y & _ & H).
+    destruct (_ <? _); [eapply IH; [| | |exact H]; assumption|].
+    destruct (_ <? _); [eapply IH; [| | |exact H]; assumption|].
+    destruct (fresh _ _ _); [|eapply IH; [| | |exact H]; assumption].
+    apply bind_inv in H as (u1 & Hw & H). apply wr_ok_inv in Hw. apply bind_inv in H as (u2 & _ & H).
+    eapply IH; [| | |exact H]; cbn [length]; lia.
+  - inversion H; subst. cbn [fst snd]. rewrite !rev_length. lia.
+Qed.
+
+Lemma adj_loop_len L R mask d cap : forall fuel i j last lo ro no out,
+  len lo = no -> len ro = no -> no <= cap ->
+  adj_loop L R mask d cap fuel i j last lo ro no = Done out -> len (fst out) <= cap /\ len (snd out) <= cap.
+Proof.
+  induction fuel as [|f IH]; intros i j last lo ro no out H1 H2 H3 H; cbn [adj_loop] in H; [discriminate|].
+  destruct (andb _ _).
+  - apply bind_inv in H as (ig & _ & H). apply bind_inv in H as (jg & _ & H).
+    apply bind_inv in H as (x & _ & H). apply bind_inv in H as (y & _ & H).
+    destruct (_ <? _); [eapply IH; [| | |exact H]; assumption|].
+    destruct (_ <? _); [eapply IH; [| | |exact H]; assumption|].
+    destruct (fresh _ _ _); [|eapply IH; [| | |exact H]; assumption].
+    apply bind_inv in H as (u1 & Hw & H). apply wr_ok_inv in Hw. apply bind_inv in H as (u2 & _ & H).
+    eapply IH; [| | |exact H]; cbn [length]; lia.
+  - inversion H; subst. cbn [fst snd]. rewrite !rev_length. lia.
+Qed.
+
+Definition short2 (l r : list N) (out : list N * list N) : Prop :=
+  len (fst out) <= len l /\ len (fst out) <= len r /\ len (snd out) <= len l /\ len (snd out) <= len r.
+
+Lemma intersect_drop_len l r mask out : intersect_drop l r mask = Done out -> short2 l r out.
+Proof.
+  unfold intersect_drop. cbv zeta. intro H. apply drop_loop_len in H; [|reflexivity|reflexivity|lia].
+  unfold short2. lia.
+Qed.
+
+Lemma adjacent_len l r mask out : adjacent l r mask = Done out -> short2 l r out.
+Proof.
+  unfold adjacent. cbv zeta. intro H. apply bind_inv in H as (j0 & _ & H).
+  apply adj_loop_len in H; [|reflexivity|reflexivity|lia]. unfold short2. lia.
+Qed.
+
+Lemma mrg_len l r : length (mrg l r) = (length l + length r)%nat.
+Proof. rewrite <- (Permutation_length (mrg_perm l r)). apply app_length. Qed.
+
+Lemma mrgd_len : forall l r, (length (mrgd l r) <= length l + length r)%nat.
+Proof.
+  induction l as [|x l IHl]; intro r; [rewrite mrgd_nil_l; lia|].
+  induction r as [|y r IHr]; [rewrite mrgd_nil_r; lia|].
+  rewrite mrgd_cons. destruct (x <? y); [cbn [length]; specialize (IHl (y :: r)); cbn [length] in IHl; lia|].
+  destruct (y <? x); cbn [length] in *; [lia|]. specialize (IHl r). lia.
+Qed.
+
+(* ---- api-level Hoare predicate: no fault; out of fuel only if T fails; P on values; exceptions allowed ---- *)
+Definition aokp {A} (T : Prop) (Q : A -> Prop) (r : api A) : Prop :=
+  match r with AOk a => Q a | AExc _ => True | AFault _ _ _ => False | AFuel => ~ T end.
+
+Lemma aokp_bind {A B} T (Q : A -> Prop) (Q' : B -> Prop) (r : api A) (k : A -> api B) :
+  aokp T Q r -> (forall a, r = AOk a -> Q a -> aokp T Q' (k a)) -> aokp T Q' (abind r k).
+Proof. destruct r; cbn [aokp abind]; intros H Hk; auto. Qed.
+
+Lemma aokp_weaken {A} T (Q Q' : A -> Prop) (r : api A) : (forall a, Q a -> Q' a) -> aokp T Q r -> aokp T Q' r.
+Proof. destruct r; cbn [aokp]; auto. Qed.
+
+Lemma aokp_lift {A} (T T' : Prop) (Q Q' : A -> Prop) (r : result A) :
+  okp F0 T' Q r -> (T -> T') -> (forall a, r = Done a -> Q a -> Q' a) -> aokp T Q' (lift r).
+Proof. destruct r; cbn [okp lift aokp]; intros H HT HQ; auto. Qed.
+
+Lemma aokp_lift_done {A} T (Q : A -> Prop) (r : result A) a : r = Done a -> Q a -> aokp T Q (lift r).
+Proof. intros -> H. exact H. Qed.
+
+Section IA.
+Variable K : N.                               (* a strict bound on the length of every term's postings *)
+Let T : Prop := 12 * K <= B62.
+
+Lemma k_drop l r mask c d : len l < c * K -> len r < d * K -> c <= 12 -> d <= 12 ->
+  aokp T (short2 l r) (lift (intersect_drop l r mask)).
+Proof.
+  intros Hl Hr Hc Hd. eapply aokp_lift; [apply drop_ok| |].
+  - unfold T, B62. intro. cbv zeta. nia.
+  - intros a Ha _. eapply intersect_drop_len. exact Ha.
+Qed.
+
+Lemma k_adj l r mask c d : len l < c * K -> len r < d * K -> c <= 12 -> d <= 12 ->
+  aokp T (short2 l r) (lift (adjacent l r mask)).
+Proof.
+  intros Hl Hr Hc Hd. eapply aokp_lift; [apply adjacent_ok| |].
+  - unfold T, B62. intro. cbv zeta. nia.
+  - intros a Ha _. eapply adjacent_len. exact Ha.
+Qed.
+
+Lemma k_merge l r : aokp T (fun m => len m = len l + len r) (lift (merge l r)).
+Proof. eapply aokp_lift_done; [apply merge_model|]. rewrite mrg_len. lia. Qed.
+
+Lemma k_merge_drop l r : aokp T (fun m => len m <= len l + len r) (lift (merge_drop l r)).
+Proof. eapply aokp_lift_done; [apply merge_drop_model|]. pose proof (mrgd_len l r). lia. Qed.
+
+Lemma take_idx_len ws idx : length (take_idx ws idx) = length idx.
+Proof. apply map_length. Qed.
+
+Definition pair_lt (c : N) (p : list N * list N) : Prop := len (fst p) < c * K /\ len (snd p) < c * K.
+
+Lemma ia_pair_ok curr nxt : len curr < K -> len nxt < K -> aokp T (pair_lt 3) (ia_pair curr nxt).
+Proof.
+  intros Hc Hn. unfold ia_pair.
+  eapply aokp_bind; [apply (k_drop curr nxt header_mask 1 1); lia|]. intros i1 _ (A1 & A2 & A3 & A4).
+  eapply aokp_bind; [apply (k_adj curr nxt header_mask 1 1); lia|]. intros a1 _ (B1 & B2 & B3 & B4).
+  eapply aokp_bind; [apply k_merge|]. intros lhs1 _ L1.
+  eapply aokp_bind; [apply k_merge|]. intros rhs1 _ R1.
+  eapply aokp_bind; [apply (k_adj nxt curr header_mask 1 1); lia|]. intros a2 _ (C1 & C2 & C3 & C4).
+  eapply aokp_bind; [apply k_merge|]. intros lhs2 _ L2.
+  eapply aokp_bind; [apply k_merge|]. intros rhs2 _ R2.
+  rewrite ?map_length, ?take_idx_len in *.
+  cbn [aokp]. unfold pair_lt. cbn [fst snd]. lia.
+Qed.
+
+Definition acc_lt (acc : option (list N * list N)) : Prop :=
+  match acc with Some p => pair_lt 3 p | None => True end.
+
+Lemma ia_fold_ok curr : len curr < K -> forall rest acc, Forall (fun e => len e < K) rest -> acc_lt acc ->
+  aokp T acc_lt (ia_fold curr rest acc).
+Proof.
+  intros Hc. induction rest as [|nxt more IH]; intros acc Hr Ha; cbn [ia_fold]; [exact Ha|].
+  inversion Hr as [|? ? Hn Hm]; subst.
+  eapply aokp_bind; [apply ia_pair_ok; assumption|]. intros lr _ [P1 P2].
+  destruct acc as [[ll lrh]|]; [|apply IH; [exact Hm|split; assumption]].
+  destruct Ha as [A1 A2]. cbn [fst snd] in A1, A2.
+  eapply aokp_bind; [apply (k_drop ll (fst lr) header_mask 3 3); lia|]. intros il _ (B1 & _).
+  eapply aokp_bind; [apply (k_drop lrh (snd lr) header_mask 3 3); lia|]. intros ir _ (C1 & _).
+  apply IH; [exact Hm|]. split; cbn [fst snd]; rewrite take_idx_len; lia.
+Qed.
+
+Lemma slice_all_headers_ok hs : len hs < 12 * K -> forall encs, Forall (fun e => len e < K) encs ->
+  aokp T (fun _ => True) (slice_all_headers encs hs).
+Proof.
+  intros Hh. induction encs as [|e rest IH]; intro Hf; cbn [slice_all_headers]; [exact I|].
+  inversion Hf as [|? ? He Hr]; subst.
+  eapply aokp_bind.
+  { unfold slice_header. eapply (aokp_lift T _ (fun _ => True) (fun _ => True)).
+    - eapply okp_bind; [apply keep_ok|]. intros ix _. exact I.
+    - unfold T, B62. rewrite map_length. intro. cbv zeta. lia.
+    - auto. }
+  intros s _ _. eapply aokp_bind; [apply IH; exact Hr|]. intros more _ _. exact I.
+Qed.
+
+Lemma intersect_all_ok encs : Forall (fun e => len e < K) encs -> aokp T (fun _ => True) (intersect_all encs).
+Proof.
+  intro Hf. unfold intersect_all. destruct encs as [|curr [|nxt rest]]; try exact I.
+  inversion Hf as [|? ? Hc Hr]; subst.
+  eapply aokp_bind; [apply ia_fold_ok; [exact Hc|exact Hr|exact I]|]. intros acc _ Ha.
+  destruct acc as [[ll lr]|]; [|exact I]. destruct Ha as [A1 A2]. cbn [fst snd] in A1, A2.
+  eapply aokp_bind; [apply k_merge_drop|]. intros m1 _ M1. rewrite !map_length in M1.
+  eapply aokp_bind; [apply k_merge_drop|]. intros m2 _ M2.
+  eapply aokp_bind; [apply k_merge_drop|]. intros m3 _ M3.
+  cbv beta in M2, M3.
+  eapply aokp_bind; [apply slice_all_headers_ok; [rewrite map_length; lia|exact Hf]|]. intros sl _ _. exact I.
+Qed.
+End IA.
+
+(* ================= 4. span_search ================= *)
+Lemma cum_bound : forall sl a, Forall (fun x => x <= a + len (concat sl)) (cum a sl).
+Proof.
+  induction sl as [|s r IH]; intro a; cbn [cum concat].
+  - constructor; [cbn [length]; lia|constructor].
+  - constructor; [lia|]. eapply Forall_impl; [|apply IH]. cbv beta. intros x Hx. rewrite app_length. lia.
+Qed.
+
+Lemma Forall_tl {A} (Q : A -> Prop) l : Forall Q l -> Forall Q (tl l).
+Proof. intro H. destruct H; [constructor|assumption]. Qed.
+
+Lemma aokp_lift_isdone {A} T (r : result A) : is_done r -> aokp T (fun _ => True) (lift r).
+Proof. destruct r; cbn [is_done lift aokp]; tauto. Qed.
+
+(* K is any strict bound on the posting lengths; fuel can only run out if 12 K exceeds 2^62 *)
+Lemma span_search_ok K encs slop : Forall (fun e => len e < K) encs ->
+  aokp (12 * K <= B62) (fun _ => True) (span_search encs slop).
+Proof.
+  intro Hf. unfold span_search.
+  eapply aokp_bind; [apply intersect_all_ok; exact Hf|]. intros [posns lengths] Hia _. cbv beta iota.
+  apply intersect_all_inv in Hia as (sl & _ & -> & ->).
+  apply aokp_lift_isdone.
+  assert (Hb : Forall (fun hi => hi <= len (concat sl)) (tl (cum 0 sl))).
+  { apply Forall_tl. eapply Forall_impl; [|apply (cum_bound sl 0)]. cbv beta. intros; lia. }
+  apply docs_loop_done.
+  - exact Hb.
+  - rewrite removelast_cum_length, tl_cum_length. reflexivity.
+  - assert (hd 0 (tl (cum 0 sl)) <= len (concat sl)); [|lia].
+    destruct Hb as [|x l Hx _]; cbn [hd]; lia.
+Qed.
+
+Definition api_nofault {A} (r : api A) : Prop := match r with AFault _ _ _ => False | _ => True end.
+Definition api_safe {A} (r : api A) : Prop := match r with AFault _ _ _ | AFuel => False | _ => True end.
+
+Lemma aokp_nofault {A} T Q (r : api A) : aokp T Q r -> api_nofault r.
+Proof. destruct r; cbn; auto. Qed.
+Lemma aokp_safe {A} (T : Prop) Q (r : api A) : aokp T Q r -> T -> api_safe r.
+Proof. destruct r; cbn; auto. Qed.
+
+Lemma len_le_concat (encs : list (list N)) : Forall (fun e => len e < 1 + len (concat encs)) encs.
+Proof.
+  induction encs as [|e r IH]; [constructor|]. cbn [concat]. rewrite app_length. constructor; [lia|].
+  eapply Forall_impl; [|exact IH]. cbv beta. intros; lia.
+Qed.
+
+(* (a) no access of the span search is out of bounds, for ANY list of posting arrays and any slop *)
+Theorem span_search_no_fault : forall encs slop, api_nofault (span_search encs slop).
+Proof. intros encs slop. eapply aokp_nofault. apply (span_search_ok _ encs slop (len_le_concat encs)). Qed.
+
+(* (b) and every loop finishes within the fuel of the model.  The only fuel that is not a function of the
+   input sizes is the 66 doublings of the galloping kernels called by _intersect_all (Intersect_Safe.v), hence
+   the bound: an array of 2^58 uint64 is 2^61 bytes, beyond any address space. *)
+Theorem span_search_safe : forall encs slop, Forall (fun e => len e < 2 ^ 58) encs ->
+  api_safe (span_search encs slop).
+Proof.
+  intros encs slop Hf. eapply aokp_safe; [apply (span_search_ok (2 ^ 58) encs slop Hf)|].
+  vm_compute. discriminate.
+Qed.
+
+Corollary span_search_safe' : forall encs slop r, Forall (fun e => len e < 2 ^ 58) encs ->
+  span_search encs slop = r -> (forall k b i, r <> AFault k b i) /\ r <> AFuel.
+Proof.
+  intros encs slop r Hf <-. pose proof (span_search_safe encs slop Hf) as H.
+  destruct (span_search encs slop); cbn [api_safe] in H; try destruct H; split; intros; discriminate.
+Qed.
+
+(* ================= 5. slop_freqs ================= *)
+Lemma get_all_posts_ok T ix : forall ts, aokp T (fun _ => True) (get_all_posts ix ts).
+Proof.
+  induction ts as [|t rest IH]; cbn [get_all_posts]; [exact I|].
+  eapply aokp_bind; [unfold get_posts; destruct (lookup t (ix_posts ix)); exact I|]. intros w _ _.
+  eapply aokp_bind; [exact IH|]. intros ws _ _. exact I.
+Qed.
+
+Lemma concat_len_le c : forall docs : list (list N), Forall (fun d => len d <= c) docs ->
+  len (concat docs) <= c * len docs.
+Proof.
+  induction 1 as [|d r Hd _ IH]; cbn [concat length]; [lia|]. rewrite app_length. lia.
+Qed.
+
+Lemma posting_short docs ix t e : wf_docs docs -> index_ok docs ix ->
+  lookup t (ix_posts ix) = Some e -> e = encode_spec (term_pairs docs t) /\ len e < 2 ^ 58.
+Proof.
+  intros [Hs Hn] (Hposts & Habsent & _ & _) Hl.
+  destruct (in_dec N.eq_dec t (concat docs)) as [Hin|Hnin]; [|rewrite (Habsent t Hnin) in Hl; discriminate].
+  rewrite (Hposts t Hin) in Hl. inversion Hl; subst e. split; [reflexivity|].
+  pose proof (Codec_Proofs2.encode_spec_length (term_pairs docs t)) as H1.
+  rewrite term_pairs_tp in *. pose proof (tp_length_le t docs 0) as H2.
+  pose proof (concat_len_le 262143 docs Hs) as H3.
+  change (2 ^ 28) with 268435456 in Hn. change (2 ^ 58) with 288230376151711744. lia.
+Qed.
+
+(* PosnBitArray.phrase_freqs(term_ids, slop) on an index that represents some corpus: no out-of-bounds access
+   (including the scatter into the per-row buffer: every matching key is a row) and no fuel exhaustion *)
+Theorem slop_freqs_safe : forall docs ix ts slop, wf_docs docs -> index_ok docs ix ->
+  api_safe (slop_freqs ix ts slop).
+Proof.
+  intros docs ix ts slop Hwf Hok.
+  apply (aokp_safe (12 * 2 ^ 58 <= B62) (fun _ => True)); [|vm_compute; discriminate].
+  unfold slop_freqs. destruct (negb (forallb (known ix) ts)); [exact I|].
+  destruct (Nat.ltb (length ts) 2) eqn:E2; [exact I|]. apply Nat.ltb_ge in E2.
+  eapply aokp_bind; [apply get_all_posts_ok|]. intros enc Henc _.
+  apply get_all_posts_inv in Henc.
+  assert (Hshort : Forall (fun e => len e < 2 ^ 58) enc).
+  { clear E2. induction Henc as [|t e ts encs Hl _ IH]; constructor; [|exact IH].
+    eapply posting_short; eassumption. }
+  eapply aokp_bind; [apply span_search_ok; exact Hshort|]. intros pf Hpf _.
+  apply aokp_lift_isdone.
+  destruct (store_many_ok pf (repeat 0 (length (ix_lens ix)))) as (d' & E & _); [|rewrite E; exact I].
+  rewrite Forall_forall. intros [k c] Hin. cbn [fst]. rewrite repeat_length, (lens_length docs ix Hok).
+  pose proof (span_search_inv enc slop pf Hpf k c Hin) as Hall.
+  destruct Henc as [|t e ts encs Hl _]; [cbn [length] in E2; lia|].
+  inversion Hall as [|? ? (w & Hw & Hk) _]; subst.
+  destruct (posting_short docs ix t e Hwf Hok Hl) as [-> _].
+  apply (posting_word_doc docs t w Hwf) in Hw.
+  destruct (N.ltb_spec (dkey w) (len docs)) as [Hlt|Hge]; [exact Hlt|].
+  rewrite nth_overflow in Hw by lia. destruct Hw.
+Qed.
+
+(* ================= 6. the span table stays within its 512 slots through the whole walk ================= *)
+Lemma compact_len spans maxw : (length (compact spans maxw) <= length spans)%nat.
+Proof. unfold compact. apply filter_len_le. Qed.
+
+Lemma words_loop_table P : forall fuel hi tord nt maxw st st',
+  len (ts_spans st) <= SPAN_CAP -> words_loop P fuel hi tord nt maxw st = Done st' -> len (ts_spans st') <= SPAN_CAP.
+Proof.
+  induction fuel as [|f IH]; intros hi tord nt maxw st st' Hl H; cbn [words_loop] in H; [discriminate|].
+  destruct (ts_idx st <? hi); [|inversion H; subst; exact Hl].
+  apply bind_inv in H as (w & _ & H). apply bind_inv in H as ([spans1 full1] & Hbl & H).
+  apply bits_loop_len in Hbl; [|exact Hl]. cbn [fst] in Hbl.
+  apply bind_inv in H as (ck & _ & H). apply bind_inv in H as ([[spans2 idx2] ck2] & Hcg & H).
+  assert (H2 : len spans2 <= SPAN_CAP).
+  { pose proof (compact_len spans1 maxw) as Hc.
+    destruct (SPAN_CAP <=? len spans1).
+    - destruct (SPAN_CAP <=? len (compact spans1 maxw)).
+      + apply bind_inv in Hcg as (gu & _ & Hcg). inversion Hcg; subst. lia.
+      + inversion Hcg; subst. lia.
+    - inversion Hcg; subst. exact Hbl. }
+  destruct (negb (ck2 =? ts_curr_key st)).
+  - inversion H; subst. exact H2.
+  - eapply IH; [|exact H]. exact H2.
+Qed.
+
+Lemma terms_loop_table P : forall lens idxs tord nt maxw dk spans full lk sums ap idxs' sp' f' lk' sums' ap',
+  len spans <= SPAN_CAP ->
+  terms_loop P lens tord idxs nt maxw dk spans full lk sums ap = Done (idxs', sp', f', lk', sums', ap') ->
+  len sp' <= SPAN_CAP.
+Proof.
+  induction lens as [|hi lrest IH]; intros idxs tord nt maxw dk spans full lk sums ap idxs' sp' f' lk' sums' ap' Hl H.
+  - destruct idxs; cbn [terms_loop] in H; inversion H; subst; exact Hl.
+  - destruct idxs as [|i0 irest]; [cbn [terms_loop] in H; inversion H; subst; exact Hl|].
+    cbn [terms_loop] in H. apply bind_inv in H as (i & _ & H).
+    apply bind_inv in H as ([stt present] & Hst & H).
+    apply bind_inv in H as ([[[[[idxs1 sp1] f1] lk1] sums1] ap1] & Hr & H). inversion H; subst.
+    eapply IH; [|exact Hr].
+    destruct (hi <=? i); [inversion Hst; subst; exact Hl|].
+    apply bind_inv in Hst as (w0 & _ & Hst). destruct (negb (dkey w0 =? dk)); [inversion Hst; subst; exact Hl|].
+    apply bind_inv in Hst as (s & Hs & Hst). inversion Hst; subst.
+    eapply words_loop_table; [|exact Hs]. exact Hl.
+Qed.
+
+(* ================= 7. non-vacuity / stress ================= *)
+(* one document in which the two phrase terms alternate 400 times, slop 1000: the table fills up (512 spans),
+   compaction cannot free a slot, and the second term takes the give-up path (the table returned by terms_loop
+   still has SPAN_CAP entries, which only the give_up branch of words_loop leaves behind); nothing faults.
+   This is the situation in which the unrepaired code stored to spans.end[512] (D16). *)
+Fixpoint alt12 (k : nat) : list N := match k with O => [] | S k' => 1 :: 2 :: alt12 k' end.
+
+Definition table_probe (docs : list (list N)) (ts : list N) (slop : N) : option (nat * bool * list N * api (list N)) :=
+  match index false 100 docs with
+  | AOk ix =>
+      match get_all_posts ix ts with
+      | AOk enc =>
+          match intersect_all enc with
+          | AOk (posns, lengths) =>
+              let nt := N.of_nat (length lengths - 1) in
+              let P := mem_of_list posns in
+              match rd 0 P 0 with
+              | Done w =>
+                  match terms_loop P (tl lengths) 0 (removelast lengths) nt (Z.of_N (nt + slop)) (dkey w) [] false 0 [] true with
+                  | Done (_, spans, full, _, sums, _) => Some (length spans, full, sums, slop_freqs ix ts slop)
+                  | _ => None
+                  end
+              | _ => None
+              end
+          | _ => None
+          end
+      | _ => None
+      end
+  | _ => None
+  end.
+
+Example span_table_full_no_fault :
+  table_probe [alt12 400; [1; 2]] [1; 2] 1000 = Some (512%nat, true, [400; 9], AOk [9; 1]).
+Proof. vm_compute. reflexivity. Qed.
+
+(* control: half as many repetitions stay below the capacity (432 spans), every word is consumed *)
+Example span_table_below_cap :
+  table_probe [alt12 200; [1; 2]] [1; 2] 60 = Some (432%nat, false, [200; 200], AOk [231; 1]).
+Proof. vm_compute. reflexivity. Qed.
+
+Print Assumptions bits_loop_done.
+Print Assumptions words_loop_done.
+Print Assumptions terms_loop_done.
+Print Assumptions docs_loop_done.
+Print Assumptions terms_loop_table.
+Print Assumptions span_search_no_fault.
+Print Assumptions span_search_safe.
+Print Assumptions span_search_safe'.
+Print Assumptions slop_freqs_safe.
